@@ -209,6 +209,8 @@ def duet_case(rng, case, history, site, variant, stats, want_op=None):
                 objs.append(W._b_twin(world, a_[1]) if isinstance(a_, tuple) else world.get(a_))
             except Exception:  # noqa: BLE001  (void slot, an operand produced by an earlier step, no twin)
                 return None
+        if h["op"] not in X.NONFINITE_SAFE and any(X._nonfinite(x) for x in objs):
+            return None   # see execute.exec_step: decompositions do not return for nan/inf input
         try:
             return snapshot.canon(op.fn(objs, h.get("p")))
         except Exception as e:  # noqa: BLE001
